@@ -71,6 +71,22 @@ var longShapes = []netDesc{
 	{Oak: 30, Fix: 40, Asic: 50, Allow: 400, Final: 450, Interval: 600, Tgt: 5, Factor: 1, OakTime: 10000},
 }
 
+// long chains at the magnitudes where the 64-bit limbs of the implementation's work values carry. The oak time of
+// the ASIC reset is one block interval, so that the reset keeps the magnitude; most of the chain keeps work as
+// integers (v2 rules), where cumulative work crosses a multiple of 2^64 / 2^128 / 2^192 every few blocks and the
+// required work drifts across multiples of them.
+var magShapes = []netDesc{
+	{Oak: 3, Fix: 4, Asic: 5, Allow: 8, Final: 350, Interval: 600, Tgt: 6, Factor: 1, OakTime: 600},
+	{Oak: 10, Fix: 12, Asic: 20, Allow: 30, Final: 60, Interval: 600, Tgt: 10, Factor: 1009, OakTime: 600},
+	{Oak: 4, Fix: 5, Asic: 6, Allow: 9, Final: 300, Interval: 60, Tgt: 12, Factor: 1, OakTime: 60},
+	{Oak: 3, Fix: 4, Asic: 5, Allow: 8, Final: 20, Interval: 600, Tgt: 8, Factor: 7, OakTime: 600},
+	{Oak: 520, Fix: 530, Asic: 560, Allow: 600, Final: 700, Interval: 600, Tgt: 13, Factor: 1, OakTime: 600},
+	{Oak: 6, Fix: 6, Asic: 8, Allow: 10, Final: 200, Interval: 10, Tgt: 9, Factor: 1, OakTime: 10},
+	{Oak: 2, Fix: 2, Asic: 3, Allow: 4, Final: 6, Interval: 600, Tgt: 14, Factor: 1, OakTime: 600},
+	{Oak: 20, Fix: 25, Asic: 40, Allow: 60, Final: 500, Interval: 600, Tgt: 11, Factor: 1, OakTime: 600},
+	{Oak: 5, Fix: 7, Asic: 9, Allow: 12, Final: 12, Interval: 600, Tgt: 7, Factor: 1, OakTime: 600}, // no v2 interlude
+}
+
 type located struct{ chain, line int } // trace line -> (chain, index into that chain's lines)
 
 func main() {
@@ -79,9 +95,10 @@ func main() {
 		replay(c)
 		return
 	}
-	c.Rule("Skeletons: TLC enumerates (network shape with fork heights 2..12) x interval x initial-target class x (background regime b1, one free timestamp choice at every position, background b2) chains of 14 headers; a seeded sample is executed. Random chains: network shape x timestamp regime x seed, up to 3000+ headers, logged in windows (all fork heights, all pre-Oak retargets, periodic windows), plus probes that stop just after a pre-Oak retarget at height 500/1000/1500. One evaluation = one header applied by ApplyHeader and ApplyBlock, with six ValidateHeader candidates and two fork-choice pairs, validated by TLC. Non-trivial = distinct (network, difficulty, oak state, timestamp) step in which the required work changed or which lies at a fork height.")
+	c.Rule("Skeletons: TLC enumerates (network shape with fork heights 2..12) x interval x initial-target class x (background regime b1, one free timestamp choice at every position, background b2) chains of 14 headers; a seeded sample is executed. Random chains: network shape x timestamp regime x seed, up to 3000+ headers, logged in windows (all fork heights, all pre-Oak retargets, periodic windows), plus probes that stop just after a pre-Oak retarget at height 500/1000/1500. Magnitude lattice: TLC (DifficultyMag) enumerates start (one per era and era boundary, 11) x required work (k*2^64/2^128/2^192 minus or plus a little, half/double/four times 2^64b, mainnet magnitude) x cumulative work (the j-th addition carries across limb boundary wb, or plain) x work estimate (retargeting pushes up / down / in balance) x timestamp choice; the harness constructs the state and applies 7 headers; a core (both integer-work eras x every magnitude class with the binding push) is always executed, the rest is a seeded sample stratified by (start, limb boundary). Long chains from genesis at initial difficulties 2^63..2^66, 2^127..2^128, 2^192.., 2^75. One evaluation = one header applied by ApplyHeader and ApplyBlock, with six ValidateHeader candidates and two fork-choice pairs, validated by TLC. Non-trivial = distinct (network, difficulty, oak state, timestamp) step in which the required work changed or which lies at a fork height.")
 	c.Assume("BigNat (spec/lib, cross-checked against TLC integers by BigNatTest) is the arithmetic oracle")
 	c.Assume("initial targets and the ASIC reset target have difficulty < 2^200; above that Work.mul64 overflows by construction (noted, not claimed)")
+	c.Assume("constructed states (magnitude lattice): height, required work, cumulative work, work estimate and oak time are chosen by the specification, the fields of the other representation are their floored inverses (re-checked by TLC on the reset line), the eleven previous timestamps are on schedule; such states are what a network with that initial target / ASIC reset target and enough blocks reaches, headers cannot be mined at these difficulties, so ApplyHeader/ApplyBlock (which do not check proof of work) are driven directly and ValidateHeader is only expected to refuse for insufficient work")
 	c.Assume("networks are well formed: 0 < oak < asic < allow <= final, interval >= 1 s, nonce factor >= 1, ASIC OakTime/OakTarget non-zero")
 	c.Assume("timestamps are whole seconds within 2^29 s of the genesis timestamp; the harness supplies the pre-Oak ancestor timestamp as a node would (1000 blocks back, or genesis)")
 	c.Assume("the header ID (a hash) is taken from the real code; the specification only compares it with the target")
@@ -137,7 +154,7 @@ func main() {
 	tSkel := time.Since(t0)
 	r := rand.New(rand.NewSource(c.Seed))
 	r.Shuffle(len(skels), func(i, j int) { skels[i], skels[j] = skels[j], skels[i] })
-	nSkel := c.Pick(220, 20000)
+	nSkel := c.Pick(300, 20000)
 	if nSkel > len(skels) {
 		nSkel = len(skels)
 	}
@@ -152,7 +169,7 @@ func main() {
 		sh := longShapes[idx%len(longShapes)]
 		regime := (idx/len(longShapes) + 3*idx) % nRegimes
 		extra := 300 + r.Intn(c.Pick(900, 2500))
-		if sh.Tgt == 5 {
+		if highClass(sh.Tgt) {
 			extra = 100 // stay within the documented difficulty range
 		}
 		thin := 2
@@ -160,6 +177,19 @@ func main() {
 			thin = 0 // every step validated
 		}
 		descs = append(descs, chainDesc{Kind: "random", Net: sh, Regime: regime, Seed: c.Seed*7919 + int64(k), Steps: int(sh.Final) + extra, Thin: thin})
+	}
+	// ... and at the magnitudes of the limb boundaries
+	nMagLong := c.Pick(2, 45)
+	for k := 0; k < nMagLong; k++ {
+		idx := int(c.Seed%1000) + k
+		sh := magShapes[idx%len(magShapes)]
+		regime := (idx/len(magShapes) + 3*idx) % nRegimes
+		extra := 200 + r.Intn(c.Pick(300, 500)) // short: the required work may rise by 0.4% per block
+		thin := 2
+		if c.Thorough && k%3 == 0 {
+			thin = 0
+		}
+		descs = append(descs, chainDesc{Kind: "random", Net: sh, Regime: regime, Seed: c.Seed*15485863 + int64(k), Steps: int(sh.Final) + extra, Thin: thin})
 	}
 	var preOak []netDesc
 	for _, sh := range longShapes {
@@ -174,6 +204,25 @@ func main() {
 		stop := 500 * (1 + r.Intn(int(sh.Oak)/500))
 		descs = append(descs, chainDesc{Kind: "random", Net: sh, Regime: (k + int(c.Seed%1000)) % nRegimes, Seed: c.Seed*104729 + int64(k), Steps: stop + 3, Thin: -1})
 	}
+
+	// 2b. the magnitude lattice: TLC chooses the states the chains start from
+	tm := time.Now()
+	mcfg := "DifficultyMagQuick.cfg"
+	if c.Thorough {
+		mcfg = "DifficultyMagThorough.cfg"
+	}
+	mres := c.MustTLC(vlib.TLCOpts{SpecDirs: []string{"pow"}, Module: "DifficultyMag", Config: mcfg, Workers: 8, Timeout: 10 * time.Minute})
+	mags := parseMag(c, mres.Lines)
+	c.Cov("magnitude_scenarios_emitted_by_tlc", len(mags))
+	if len(mags) < 5000 {
+		c.Fatal("only %d magnitude scenarios emitted", len(mags))
+	}
+	mags = pickMag(mags, r, c.Pick(440, 9000))
+	c.Cov("magnitude_scenarios_executed", len(mags))
+	for i, m := range mags {
+		descs = append(descs, m.desc(i))
+	}
+	c.Cov("time_magnitude_lattice_s", time.Since(tm).Seconds())
 
 	// 3.-5. in batches of chains: execute on the real code, let TLC validate the trace (direction B),
 	// re-execute every rejection
@@ -221,6 +270,8 @@ func (d chainDesc) estimate() int {
 		return d.Steps + d.Steps/segmentMax + 1
 	case d.Thin < 0:
 		return 40
+	case d.Kind == "mag":
+		return d.Steps + 1
 	}
 	return d.Steps/d.Thin + 200
 }
@@ -319,6 +370,9 @@ func describe(d chainDesc) string {
 	if d.Kind == "skeleton" {
 		return fmt.Sprintf("skeleton net=%+v choices=%v", d.Net, d.Choice)
 	}
+	if d.Kind == "mag" {
+		return fmt.Sprintf("constructed state net=%+v %s (height %d, D=%s W=%s oakWork=%s) timestamp choice %d", d.Net, d.Mag.Label, d.Mag.Start, d.Mag.D, d.Mag.W, d.Mag.OakW, d.Regime)
+	}
 	return fmt.Sprintf("random net=%+v regime=%d seed=%d", d.Net, d.Regime, d.Seed)
 }
 
@@ -381,10 +435,14 @@ type cover struct {
 	steps, nontrivial                  int64
 	distinct                           map[string]bool
 	panics, lines, samples             int
+	mag                                map[string]map[string]int // clause -> magnitude bucket of the required work -> steps
+	limb                               map[string]map[string]int // "carryW" | "carryUp" | "borrowDown" -> "<clause>/b<limb>" -> steps
+	magSamples                         int
 }
 
 func newCoverage() *cover {
-	return &cover{eras: map[string]int{}, boundaries: map[string]int{}, decisive: map[string]int{}, oakLow: map[string]int{}, distinct: map[string]bool{}}
+	return &cover{eras: map[string]int{}, boundaries: map[string]int{}, decisive: map[string]int{}, oakLow: map[string]int{}, distinct: map[string]bool{},
+		mag: map[string]map[string]int{}, limb: map[string]map[string]int{"carryW": {}, "carryUp": {}, "borrowDown": {}}}
 }
 
 func (cv *cover) add(c *vlib.Ctx, desc chainDesc, cr *chainRun) {
@@ -401,6 +459,24 @@ func (cv *cover) add(c *vlib.Ctx, desc chainDesc, cr *chainRun) {
 		cv.eras[m.era]++
 		if m.oakLow {
 			cv.oakLow[m.era]++
+		}
+		if m.limbs.bucket != "" {
+			if cv.mag[m.era] == nil {
+				cv.mag[m.era] = map[string]int{}
+			}
+			cv.mag[m.era][m.limbs.bucket]++
+		}
+		for b := 1; b <= 3; b++ {
+			k := fmt.Sprintf("%s/b%d", m.era, b)
+			if m.limbs.carryW[b] {
+				cv.limb["carryW"][k]++
+			}
+			if m.limbs.carryUp[b] {
+				cv.limb["carryUp"][k]++
+			}
+			if m.limbs.borrowDown[b] {
+				cv.limb["borrowDown"][k]++
+			}
 		}
 		for k, v := range m.decisive {
 			cv.decisive[k+"="+v]++
@@ -422,6 +498,10 @@ func (cv *cover) add(c *vlib.Ctx, desc chainDesc, cr *chainRun) {
 		cv.samples++
 		c.Sample(map[string]any{"desc": desc, "line": cr.lines[12]})
 	}
+	if cv.magSamples < 2 && desc.Kind == "mag" && len(cr.lines) > 1 {
+		cv.magSamples++
+		c.Sample(map[string]any{"desc": desc, "line": cr.lines[1]})
+	}
 }
 
 func (cv *cover) report(c *vlib.Ctx) {
@@ -440,6 +520,38 @@ func (cv *cover) report(c *vlib.Ctx) {
 	for _, e := range []string{"ClampOak", "ClampV2", "ClampFinal"} {
 		if cv.oakLow[e] == 0 {
 			c.Infra("vacuity: no %s step starts from an oak time below one second (division guards not exercised)", e)
+		}
+	}
+	c.Cov("steps_per_clause_and_magnitude", cv.mag)
+	c.Cov("steps_total_work_addition_carries_out_of_limb", cv.limb["carryW"])
+	c.Cov("steps_upper_clamp_bound_binds_and_carries_out_of_limb", cv.limb["carryUp"])
+	c.Cov("steps_lower_clamp_bound_binds_and_borrows_across_limb", cv.limb["borrowDown"])
+	// every clause at every limb magnitude (and at today's mainnet magnitude where retargeting happens per block)
+	for _, e := range []string{"NoAdjust", "ClampPre", "ClampOak", "AsicReset", "ClampV2", "ClampFinal"} {
+		for _, b := range []string{"b1", "b2", "b3"} {
+			if cv.mag[e][b] == 0 {
+				c.Infra("vacuity: no %s step with the required work at the magnitude of limb boundary %s (2^63..2^68 / 2^127..2^132 / 2^191..2^197)", e, b)
+			}
+		}
+	}
+	for _, e := range []string{"ClampOak", "ClampV2", "ClampFinal"} {
+		if cv.mag[e]["main"] == 0 {
+			c.Infra("vacuity: no %s step at the mainnet magnitude (2^71..2^80)", e)
+		}
+	}
+	// the 4x64-bit arithmetic really crossed each of the three lower limb boundaries, in both eras that compute in it
+	for _, e := range []string{"ClampV2", "ClampFinal"} {
+		for b := 1; b <= 3; b++ {
+			k := fmt.Sprintf("%s/b%d", e, b)
+			if cv.limb["carryW"][k] == 0 {
+				c.Infra("vacuity: no %s step in which adding the block's work to the total work carries out of bit %d", e, 64*b)
+			}
+			if cv.limb["carryUp"][k] == 0 {
+				c.Infra("vacuity: no %s step in which the upper clamp bound D + D/250 carries out of bit %d and is the new required work", e, 64*b)
+			}
+			if cv.limb["borrowDown"][k] == 0 {
+				c.Infra("vacuity: no %s step in which the lower clamp bound D - D/250 borrows across bit %d and is the new required work", e, 64*b)
+			}
 		}
 	}
 	for _, b := range []string{"oak", "fix", "asic", "allow", "final"} {
